@@ -19,7 +19,7 @@ ASSUMPTIONS = [
 RULE = ("run = 2-7 ops from {generator CLI on seeded accepted parameters (tiny/small/wide/tall boards, probabilities k/100, "
         "many-digit, near-0/near-1), manual entry point on a hand-made board, plant a longer/torn/garbage file at the path the "
         "next invocation writes, OSError at open/n-th write/close, Ctrl-C/kill at a seeded step inside the writer followed by a "
-        "clean regeneration, restart}; after every normal exit: one file, loads to game_a/b/c, structure, solve-or-no-solution; "
+        "clean regeneration, the same entry points called repeatedly inside one long-lived process, restart}; after every normal exit: one file, loads to game_a/b/c, structure, solve-or-no-solution; "
         "non-trivial = a generated file loaded and solved with an overwrite or a non-tiny board or a fired fault; "
         "distinct = hash of (parameter sets, op shapes, faults fired)")
 
@@ -71,6 +71,8 @@ def gen(rng, tier, ctx):
             base = {"op": "gen_cli", "params": p}
         base["entropy"] = rng.randint(0, 2 ** 32)
         base["solve"] = rng.random() < 0.7
+        if rng.random() < (0.5 if base["op"] == "gen_manual" else 0.2):
+            base["same_process"] = True     # long-lived driver process calling the entry point repeatedly
         if rng.random() < 0.3:
             opl.append({"op": "plant", "for": dict(base), "kind": rng.choice(["longer", "torn", "garbage"]),
                         "seed": rng.randint(0, 999)})
@@ -212,6 +214,10 @@ def execute(spec, w, ctx):
         out, before, after, changed, wopens = genops.run_gen(w, op, cfg)
         faulted = bool(out["fs_fired"]) or out["status"] == "interrupt"
         shapes.append(("m" if kind == "gen_manual" else "g") + ("F" if faulted else "") + ("s" if op.get("solve") else ""))
+        if op.get("same_process"):
+            w.fired("same-process-call")
+            if out["status"] == "interrupt" and op.get("kill"):
+                w.restart(op.get("entropy", 0))      # a killed process does not continue
         if out["status"] == "interrupt":
             w.probe("interrupt-in:" + str(out.get("site", "?")).split(":")[0])
             if changed:
@@ -265,7 +271,8 @@ def _judge(i_op, op, out, before, after, changed, wopens, w, ctx, events, states
                 what, rel, len(data), len(rdata), k, data[k:k + 40], rdata[k:k + 40]),
                 "silent-failure:differs-from-fresh" if not clean else "differs-from-fresh")
     # reader
-    w.restart(1)
+    if not op.get("same_process"):
+        w.restart(1)        # the solver is another process; same_process: a driver script reads it back itself
     rd = ops.read_file(w, rel, {"step_cap": 10 ** 7})
     if rd["status"] != "ok":
         return viol("I11.1", i_op, "the solver's reader cannot load %s written by %s: %s" % (rel, what, genops.show(rd)),
